@@ -171,6 +171,42 @@ let many_verdict ~wellformed paths_arg h impl =
     end end
   else "bad:unparsable result"
 
+(* ---------- C11: the search model itself (Model/ManySeen.rec2 over the tree ManyBuild.build makes of the paths), run
+   on the reference parse of the document and compared slot by slot with what get_many returned. Paths of member
+   names only (the model has objects; everything else is a leaf). ---------- *)
+let manyrec_verdict paths_arg h impl =
+  let bytes = bytes_of_hex h in
+  let paths = Stdlib.List.map path_of_arg (split_on ';' paths_arg) in
+  let keys_only = Stdlib.List.for_all (Stdlib.List.for_all (function Ref.PKey _ -> true | _ -> false)) paths in
+  if not keys_only then "same" else
+  match Ref.ref_text false bytes with
+  | None -> "same"
+  | Some ((v, a), b) ->
+    let spans : (Obj.t * (int * int)) list ref = ref [] in
+    let next = ref 0 in
+    let rec conv (v : Ref.jv) (a : int) (b : int) : BinNums.coq_N list Many.jv =
+      let node = match v with
+        | Ref.JObj ms -> Many.JObj (Stdlib.List.map (fun (((k, a'), b'), x) -> (k, conv x (int_of_nat a') (int_of_nat b'))) ms)
+        | _ -> incr next; Many.JS (nat_of_int !next) in
+      spans := (Obj.repr node, (a, b)) :: !spans; node in
+    let doc = conv v (int_of_nat a) (int_of_nat b) in
+    let keq (x : BinNums.coq_N list) (y : BinNums.coq_N list) = (x = y) in
+    let kpaths = Stdlib.List.map (Stdlib.List.map (function Ref.PKey k -> k | _ -> [])) paths in
+    let tree = ManyBuild.build keq kpaths in
+    let n = Stdlib.List.length paths in
+    let fuel = nat_of_int (Stdlib.List.length bytes + 8) in
+    let model =
+      match ManySeen.rec2 keq fuel tree doc (fun _ -> None) (nat_of_int n) with
+      | None -> "err"
+      | Some (out, _) ->
+        "ok:" ^ String.concat ";" (Stdlib.List.init n (fun i ->
+            match out (nat_of_int i) with
+            | None -> "none"
+            | Some x -> (match Stdlib.List.find_opt (fun (o, _) -> o == Obj.repr x) !spans with
+                | Some (_, (a, b)) -> Printf.sprintf "%d,%d" a b
+                | None -> "unknown-node"))) in
+    if model = impl then "same" else "model:" ^ model
+
 let sorted_dump_string (v : Ref.jv) : string =
   let rec go v =
     match v with
@@ -187,6 +223,7 @@ let () =
   reg_memo 1 "iterobj" (function h :: _ -> items_string ~with_key:true (Ref.ref_object_iter (bytes_of_hex h)) | _ -> raise (Bad_op "iterobj"));
   reg_memo 1 "iterarr_text" (function h :: _ -> let b = bytes_of_hex h in items_string ~text:(Some b) ~with_key:false (Ref.ref_array_iter b) | _ -> raise (Bad_op "iterarr_text"));
   reg_memo 1 "iterobj_text" (function h :: _ -> let b = bytes_of_hex h in items_string ~text:(Some b) ~with_key:true (Ref.ref_object_iter b) | _ -> raise (Bad_op "iterobj_text"));
+  reg "manyrec" (function p :: h :: impl :: _ -> manyrec_verdict p h impl | _ -> raise (Bad_op "manyrec"));
   reg "manyok" (function p :: h :: impl :: _ -> many_verdict ~wellformed:true p h impl | _ -> raise (Bad_op "manyok"));
   reg "manysound" (function p :: h :: impl :: _ -> many_verdict ~wellformed:false p h impl | _ -> raise (Bad_op "manysound"));
   reg "schema" (function sh :: dh :: _ ->
